@@ -44,12 +44,16 @@ def AdapterStats.addMatch (s : AdapterStats) (isFrontClass isAnywhere : Bool) (m
     let s := match f with | some fm => { s with front := s.front.addFront fm } | none => s
     match b with | some bm => { s with back := s.back.addBack bm } | none => s
 
+def isFrontClassAdapter (a : Adapter) : Bool :=
+  match a.ty with | .front | .rightmostFront | .nonInternalFront | .prefix => true | _ => false
 def isFrontClass : Matchable → Bool
-  | .single a => (match a.ty with | .front | .rightmostFront | .nonInternalFront | .prefix => true | _ => false)
+  | .single a => isFrontClassAdapter a
   | .linked .. => false
+  | .indexed idx _ => idx.isPrefix      -- (the index object itself has no statistics; its members do, see `adapterStatsT`)
 def isAnywhereClass : Matchable → Bool
   | .single a => a.ty == .anywhere
   | .linked .. => false
+  | .indexed .. => false
 
 /-- per-adapter statistics of one read side after a run -/
 def adapterStats (ads : List Matchable) (side : Nat) (evs : List Event) : List AdapterStats :=
@@ -60,6 +64,28 @@ def adapterStats (ads : List Matchable) (side : Nat) (evs : List Event) : List A
       if s == side then
         acc.mapIdx (fun i st => if i == m.adapter then
           st.addMatch ((ads[i]?.map isFrontClass).getD false) ((ads[i]?.map isAnywhereClass).getD false) m rc else st)
+      else acc
+    | _ => acc) init
+
+/-- `(front class?, anywhere class?)` per adapter number, for the whole table of `namesOf`: list entries by position, then the members
+    of the index objects -/
+def classTable (ads : List Matchable) : List (Bool × Bool) :=
+  ads.map (fun a => (isFrontClass a, isAnywhereClass a)) ++
+  ads.flatMap (fun a => match a with
+    | .indexed idx _ => idx.adapters.map (fun m => (isFrontClassAdapter m, false))
+    | _ => [])
+
+/-- per-adapter statistics over the whole adapter table (`adapterStats` covers the list entries only, which is all there is
+    when no index object is in the list) -/
+def adapterStatsT (ads : List Matchable) (side : Nat) (evs : List Event) : List AdapterStats :=
+  let tbl := classTable ads
+  let init : List AdapterStats := tbl.map (fun _ => {})
+  evs.foldl (fun acc ev =>
+    match ev with
+    | .matched s m rc =>
+      if s == side then
+        acc.mapIdx (fun i st => if i == m.adapter then
+          st.addMatch ((tbl[i]?.map (·.1)).getD false) ((tbl[i]?.map (·.2)).getD false) m rc else st)
       else acc
     | _ => acc) init
 
